@@ -20,7 +20,7 @@ RULE = ("every BenchmarkFunction subclass of benchmark_functions / benchmark_rob
         "local search")
 ASSUMPTIONS = ["tolerance 1e-3 absolute (the documented constants carry 4-5 significant digits)",
                "clause B is a global-optimisation claim: random + local search + dense low-dimensional scans can miss a "
-               "narrow basin; dimensions are capped at 25",
+               "narrow basin; dimensions are capped at 25 (100 for the value at the documented optimum)",
                "XinSheYang3 draws random weights per call: every draw is checked"]
 
 GENERIC = ["Rosenbrock", "Ackley", "Sphere", "Schwefel", "ModifiedEasom", "EqualityConstr", "Griewank", "Perm",
@@ -46,6 +46,9 @@ def configs():
 
 
 CONFIGS = configs()
+# the documented optimum is also evaluated in high dimensions (one evaluation each), where a per-coordinate error in a
+# constant adds up; CONFIGS stays a prefix so that the indices stored in replay files keep their meaning
+OPT_CONFIGS = CONFIGS + [(c, d) for c in GENERIC for d in (50, 100)]
 # literature optimum of the Michalewicz function (m=10), used only as a *starting region* for generated points and for
 # the local search in the dimensions where the repository documents the optimal value but not its coordinates
 HINTS = {"Michaelwicz": [2.202906, 1.570796, 1.284992, 1.923058, 1.720470, 1.570796, 1.454414, 1.756087, 1.655717,
@@ -204,13 +207,13 @@ def check_points(case):
 # ---------------------------------------------------------------- clause V: the documented optimum (enumerated)
 
 def optimum_items(tier):
-    for i, (name, dim) in enumerate(CONFIGS):
+    for i, (name, dim) in enumerate(OPT_CONFIGS):
         for as_np in (False, True):
             yield {"cfg": i, "np": as_np}
 
 
 def check_optimum(case):
-    name, dim = CONFIGS[case["cfg"]]
+    name, dim = OPT_CONFIGS[case["cfg"]]
     try:
         with guard("optimum", allowed=(Rejected,)):
             prob = bench(name, dim)
